@@ -63,7 +63,7 @@ vars  == <<dvars, vvars, avars, bvars>>
 
 NoCur  == [k |-> "none"]
 NoEff  == [k |-> "none"]
-EmptyCat == [n \in Names |-> [k |-> "none", id |-> NoId]]
+EmptyCat == [n \in Names |-> [k |-> "none", id |-> NoId, base |-> "-"]]
 EmptyAdb == [n \in Names |-> [k |-> "none", rows |-> {}]]
 
 (***************************************************************************)
@@ -142,10 +142,12 @@ CreateTable(n) ==
     /\ UNCHANGED <<dvars, up, cat, nextTid, live, ldv, nextRs, nextDv, avars, nrow, boots, dead, err, bad, kf>>
 
 \* CREATE VIEW / CREATE INDEX: catalog only, nothing is logged.
-CreateView(n) ==
+\* The view selects from the table `m': that table can not be dropped while the view exists.
+HasView(n) == \E w \in Names : cat[w].k = "view" /\ cat[w].base = n
+CreateView(n, m) ==
     /\ AllowViews /\ Idle /\ stmts < MaxStmts /\ cat[n].k = "none"
-    /\ \E m \in Names : cat[m].k = "table"
-    /\ cat' = [cat EXCEPT ![n] = [k |-> "view", id |-> nextTid]]
+    /\ cat[m].k = "table"
+    /\ cat' = [cat EXCEPT ![n] = [k |-> "view", id |-> nextTid, base |-> m]]
     /\ nextTid' = IF "SharedIdCounter" \in Dev THEN nextTid + 1 ELSE nextTid
     /\ adb' = [adb EXCEPT ![n] = [k |-> "view", rows |-> {}]]
     /\ stmts' = stmts + 1
@@ -159,8 +161,14 @@ CreateIndex ==
     /\ stmts' = stmts + 1
     /\ UNCHANGED <<dvars, up, cat, live, ldv, nextRs, nextDv, pc, cur, avars, nrow, boots, dead, err, bad, kf>>
 
+\* DROP TABLE of a table that a view selects from is refused: nothing changes.
+DropRefused(n) ==
+    /\ Idle /\ stmts < MaxStmts /\ cat[n].k = "table" /\ HasView(n)
+    /\ stmts' = stmts + 1
+    /\ UNCHANGED <<dvars, up, cat, nextTid, live, ldv, nextRs, nextDv, pc, cur, avars, nrow, boots, dead, err, bad, kf>>
+
 DropTable(n) ==
-    /\ Idle /\ stmts < MaxStmts /\ cat[n].k = "table"
+    /\ Idle /\ stmts < MaxStmts /\ cat[n].k = "table" /\ ~HasView(n)
     /\ LET t   == cat[n].id
            rs  == {x \in live : x[1] = t}
            dv  == {d \in ldv : d[1] = t /\ <<d[1], d[2]>> \in rs}
@@ -170,7 +178,7 @@ DropTable(n) ==
        IN  Begin([k |-> "dt", eff |-> [k |-> "dt", n |-> n], txn |-> ops,
                   mk |-> <<>>, dv |-> <<>>, vac |-> rs, n |-> n])
     \* contrary to CREATE, the catalog is changed first (drop_table_inner)
-    /\ cat' = [cat EXCEPT ![n] = [k |-> "none", id |-> NoId]]
+    /\ cat' = [cat EXCEPT ![n] = [k |-> "none", id |-> NoId, base |-> "-"]]
     /\ stmts' = stmts + 1
     /\ UNCHANGED <<dvars, up, nextTid, live, ldv, nextRs, nextDv, avars, nrow, boots, dead, err, bad, kf>>
 
@@ -298,7 +306,7 @@ Publish ==
     /\ LET s == ApplyOps([rs |-> live, dv |-> ldv], cur.txn) IN
        /\ live' = s.rs /\ ldv' = s.dv
     /\ IF cur.k = "ct"
-       THEN /\ cat' = [cat EXCEPT ![cur.n] = [k |-> "table", id |-> nextTid]]
+       THEN /\ cat' = [cat EXCEPT ![cur.n] = [k |-> "table", id |-> nextTid, base |-> "-"]]
             /\ nextTid' = nextTid + 1
        ELSE UNCHANGED <<cat, nextTid>>
     /\ adb' = ApplyEff(adb, cur.eff)
@@ -400,8 +408,8 @@ BootRename ==
     /\ pc = "boot.rename"
     /\ man' = Compacted(cur.s) /\ torn' = FALSE /\ tmp' = "none"
     /\ LET s == cur.s IN
-       /\ cat' = [n \in Names |-> IF s.ids[n] # NoId THEN [k |-> "table", id |-> s.ids[n]]
-                                  ELSE [k |-> "none", id |-> NoId]]
+       /\ cat' = [n \in Names |-> IF s.ids[n] # NoId THEN [k |-> "table", id |-> s.ids[n], base |-> "-"]
+                                  ELSE [k |-> "none", id |-> NoId, base |-> "-"]]
        /\ nextTid' = s.next
        /\ live' = s.rs /\ ldv' = s.dv /\ nextRs' = s.nrs /\ nextDv' = s.ndv
     /\ up' = TRUE /\ pc' = "judge" /\ cur' = NoCur
@@ -423,7 +431,8 @@ Judge ==
 DelSets == {1..c : c \in 1..MaxRows} \cup {{c} : c \in 1..MaxRows}
 
 Stmt ==
-    \/ \E n \in Names : CreateTable(n) \/ CreateView(n) \/ DropTable(n) \/ Compact(n)
+    \/ \E n \in Names : CreateTable(n) \/ DropTable(n) \/ DropRefused(n) \/ Compact(n)
+    \/ \E n, m \in Names : CreateView(n, m)
     \/ CreateIndex
     \/ \E n \in Names, c \in 1..2 : Insert(n, c)
     \/ \E n \in Names, S \in DelSets : Delete(n, S)
